@@ -15,7 +15,23 @@ def main():
     os.makedirs(outdir, exist_ok=True)
     for m in muts:
         d = tlc.stage()
+        opts = []
+        if '@' in m:
+            m, o = m.split('@', 1)
+            opts = o.split(';')
         cfg = open(os.path.join(d, 'Attack_%s.cfg' % module)).read()
+        live = False
+        for o in opts:
+            if o == 'live':
+                live = True
+                continue
+            a, b = o.split('=>')
+            assert a in cfg, a
+            cfg = cfg.replace(a, b)
+        if live:
+            import re
+            cfg = re.sub(r'INVARIANTS.*\n', '', cfg)
+            cfg = re.sub(r'PROPERTIES .*', 'PROPERTIES Convergence', cfg).replace('VIEW View\n', '')
         if m.startswith('unfix:'):
             cfg = cfg.replace('@MUT@', '').replace('@FIXED@', 'FxNo' + m[6:].capitalize())
         else:
@@ -26,11 +42,15 @@ def main():
             print(m, 'NO COUNTEREXAMPLE', r.violated, r.generated, r.distinct, r.wall)
             print(r.stdout[-800:])
             continue
-        steps = [tlaval.plain(s['state']['act']) for s in r.trace[1:]]
+        steps = [tlaval.plain(s['state']['act']) for s in r.trace[1:] if 'act' in s['state']]
         if 'abs' in r.trace[0]['state']:
-            for st, s in zip(steps, r.trace[1:]):
+            for st, s in zip(steps, [x for x in r.trace[1:] if 'act' in x['state']]):
                 st['mh'] = len(tlaval.plain(s['state']['abs'])) - 1
-        json.dump({'id': 'attack-%s' % m.replace(':', '-'), 'mutant': m, 'violates': r.violated, 'steps': steps},
+        extra = {}
+        if 'ptip' in r.trace[0]['state']:
+            extra['ptip'] = tlaval.plain(r.trace[0]['state']['ptip'])
+            steps = [tlaval.plain(s['state']['act']) for s in r.trace[1:] if 'act' in s['state']]
+        json.dump(dict({'id': 'attack-%s' % m.replace(':', '-'), 'mutant': m, 'violates': r.violated, 'steps': steps}, **extra),
                   open(os.path.join(outdir, '%s-%s.json' % (module, m.replace(':', '-'))), 'w'), indent=1)
         print(m, r.violated, len(steps), 'steps', r.distinct, 'states', '%.1fs' % r.wall)
         import shutil; shutil.rmtree(d, ignore_errors=True)
